@@ -6,6 +6,7 @@ import TeosVerif.Driver.LocksDrv
 import TeosVerif.Driver.OutageDrv
 import TeosVerif.Driver.ClientDrv
 import TeosVerif.Driver.PluginDrv
+import TeosVerif.Driver.HttpDrv
 /- The model driver: one operation per input line, one canonical output line per operation. -/
 open Teos Teos.Drv
 
@@ -15,6 +16,8 @@ structure DState where
   ou : Teos.Outage.St := {}
   cl : Teos.Client.Client := Teos.Client.Client.fresh
   pl : Teos.Plugin.St := {}
+  lastOut : String := ""
+  unavailable : Bool := false
 
 def step (st : DState) (line : String) : DState × String :=
   match words line with
@@ -27,7 +30,15 @@ def step (st : DState) (line : String) : DState × String :=
   | "pl" :: rest => let (t, o) := plStep st.pl rest; ({ st with pl := t }, o)
   | "px" :: _ => (st, "-")
   | "cl" :: rest => let (t, o) := clStep st.cl rest; ({ st with cl := t }, o)
-  | "tw" :: rest => let (t, o) := twStep st.tw rest; ({ st with tw := t }, o)
+  | ["ht", "last"] => (st, htLast st.lastOut)
+  | ["ht", "unavailable", v] => ({ st with unavailable := v = "1" }, "ok")
+  | "ht" :: "req" :: rest => (st, htReq st.unavailable rest)
+  | "hx" :: _ => (st, "-")
+  | "tw" :: rest =>
+    -- with bitcoind flagged unreachable every public request is refused before it is looked at
+    if st.unavailable && (rest.head? = some "reg" || rest.head? = some "add" || rest.head? = some "get" || rest.head? = some "sub")
+    then ({ st with lastOut := "unavailable" }, "unavailable")
+    else let (t, o) := twStep st.tw rest; ({ st with tw := t, lastOut := o }, o)
   | _ => (st, "bad-op")
 
 partial def loop (h : IO.FS.Stream) (out : IO.FS.Stream) (st : DState) : IO Unit := do
